@@ -72,14 +72,19 @@ def _parse(filename):
     return _file_cache[filename]
 
 
-def _find(tree, path):
-    """path: ['Class', 'Inner', 'func'] -> node (last def wins, like Python)."""
+def _find(tree, path, lineno=None):
+    """path: ['Class', 'Inner', 'func'] -> node (last def wins, like Python; with lineno the
+    def that starts there - property getter/setter pairs share one name)."""
     body = tree.body
     node = None
     for i, name in enumerate(path):
         found = None
         for n in body:
             if isinstance(n, (ast.FunctionDef, ast.ClassDef)) and n.name == name:
+                if lineno is not None and i == len(path) - 1 and isinstance(n, ast.FunctionDef):
+                    first = min([n.lineno] + [d.lineno for d in n.decorator_list])
+                    if lineno not in (first, n.lineno):
+                        continue
                 found = n
             elif isinstance(n, (ast.If, ast.Try)):
                 for sub in ast.walk(n):
@@ -93,10 +98,11 @@ def _find(tree, path):
     return node
 
 
-def by_qualname(qualname):
+def by_qualname(qualname, lineno=None, live_fn=None):
     """'pkg.mod.Class.func' -> Extracted.  Module boundary is found by import."""
-    if qualname in _fn_cache:
-        return _fn_cache[qualname]
+    ckey = (qualname, lineno)
+    if ckey in _fn_cache:
+        return _fn_cache[ckey]
     parts = qualname.split('.')
     mod = None
     for i in range(len(parts) - 1, 0, -1):
@@ -114,7 +120,7 @@ def by_qualname(qualname):
         raise RuntimeError("module %s imported from %s, not from repo %s"
                            % (mod.__name__, filename, _REPO[0]))
     src, tree = _parse(filename)
-    node = _find(tree, rest)
+    node = _find(tree, rest, lineno)
     if node is None or not isinstance(node, ast.FunctionDef):
         raise FunctionNotFound(qualname)
     seg = ast.get_source_segment(src, node) or ''
@@ -130,7 +136,7 @@ def by_qualname(qualname):
         live = inspect.getattr_static(obj, lname)
     except AttributeError:
         raise FunctionNotFound(qualname)
-    live = _unwrap(live)
+    live = _unwrap(live) if live_fn is None else live_fn
     code = getattr(live, '__code__', None)
     if code is not None and getattr(live, '__name__', None) == node.name:
         # same file and same line => the text we verify is the code that runs
@@ -143,7 +149,7 @@ def by_qualname(qualname):
             raise RuntimeError("live %s at line %d, extracted at %d"
                                % (qualname, code.co_firstlineno, first))
     ex = Extracted(qualname, mod, node, seg, filename, cls)
-    _fn_cache[qualname] = ex
+    _fn_cache[ckey] = ex
     return ex
 
 
@@ -164,7 +170,8 @@ def of_function(fn):
     qn = getattr(fn, '__qualname__', None)
     if mod is None or qn is None or '<locals>' in qn:
         raise FunctionNotFound(repr(fn))
-    return by_qualname(mod + '.' + qn)
+    code = getattr(fn, '__code__', None)
+    return by_qualname(mod + '.' + qn, code.co_firstlineno if code is not None else None, fn)
 
 
 def qualname_of(fn):
